@@ -30,9 +30,7 @@ def run(ctx, rep):
     cfg = db.config
     td = db.fn(TABLE_DECOMMIT, 'C05')
     gs = dataflow.effective_guards(db, TABLE_DECOMMIT)
-    g1 = [g for g in gs if g.rel == 'EQ' and g.covers == 'all' and g.fn == TABLE_DECOMMIT and any(
-        ('len(a3.values)' in x and 'len(a2)' in y and any(l.startswith('a1.config.n_columns') for l in y) and 'op:mul' in y)
-        for x, y in ((g.lhs, g.rhs), (g.rhs, g.lhs)))]
+    g1 = common.table_length_guard(db)
     rep.ob('C05.length', 'cells=columns*queries', bool(g1), 'table_decommit must reject unless n_columns * queries.len() == values.len()', td.loc(), cfg, sample=True)
     obligations.check_chain(db, rep, 'C05.delegate', 'table->vector', [TABLE_DECOMMIT, VECTOR_DECOMMIT], None, None, cfg)
     # (b) Montgomery
